@@ -178,6 +178,15 @@ def run(ctx):
                          {'inputs': meta.get('inputs')}, meta.get('kf'))
         elif kind == 'no_crash':
             judge_no_crash(text, meta['key'], got, meta.get('kf'))
+        elif kind == 'no_crash_any':
+            # only "no Python exception" is judged (any error class may be
+            # handed on from the inner operation)
+            ctx.case(meta['key'])
+            ctx.event('edge_number_chained')
+            if got[0] == 'raised':
+                ctx.fail(f'{text} with {meta.get("inputs")}: Python exception '
+                         f'escaped: {got}', {'formula': text, 'observed': got},
+                         monitor='typed-operands', group='edge-formula')
 
     def judge_no_crash(what, key, got, kf=None):
         ctx.case(key)
@@ -310,6 +319,50 @@ def run(ctx):
                 judge_no_crash(f'{name}({an}:{a!r}) [{spelling}]',
                                (name, an, spelling), got)
 
+    # ---- B2. numbers at the edges of the double range --------------------------
+    # every ordered pair through every operator, and the result (when it is a
+    # value) handed on as an operand of a second operator: neither step may
+    # raise.  (Whether an overflowing product is #NUM! or an infinity is not
+    # stated and not judged; a Python exception is.)
+    edge = [1e308, -1e308, 1.7976931348623157e308, 5e-324, -5e-324, 1e-320,
+            2.0, 2, -2.0, 1024, 1024.0, 1023.5, 308.27, 308.3, 10, 16, 256,
+            4, 512.0, 0.5, -0.0, 1e154, 1.3407807929942597e154, 2 ** 53,
+            2 ** 62, 10 ** 20, 709.79, 1e15, 1.0000000000000002, 3]
+    if thorough:
+        edge += [ctx.rng.choice([1, -1]) * 10 ** ctx.rng.uniform(-320, 308.5)
+                 for _ in range(40)]
+        edge = [v for v in edge if v == v and abs(v) != float('inf')]
+    second = [('OP_MUL', '*', 1.5), ('OP_ADD', '+', 0.5), ('OP_DIV', '/', 3),
+              ('OP_SUB', '-', 0.25), ('CONCAT', '&', 'x'), ('OP_LT', '<', 1.5),
+              ('POWER', '^', 0.5)]
+    for a, b in itertools.product(edge, repeat=2):
+        for name, sym in BIN.items():
+            work += 1
+            if work % n != sh:
+                continue
+            f = F.get(name)
+            got = monitors.call_outcome_raw(f, a, b)
+            ctx.event('edge_number_cases')
+            g1 = ('value', monitors.norm(got[1])) if got[0] == 'value' else got
+            judge_no_crash(f'{name}({a!r}, {b!r})', (name, 'edge', a, b), g1)
+            if got[0] != 'value':
+                continue
+            n2, s2, c = second[work % len(second)]
+            got2 = monitors.call_outcome(F.get(n2), got[1], c)
+            ctx.event('edge_number_chained')
+            if got2[0] == 'raised':
+                ctx.fail(f'{n2}({name}({a!r}, {b!r}), {c!r}): Python exception '
+                         f'escaped: {got2}; the first result was {g1}',
+                         {'function': name, 'args': [repr(a), repr(b)],
+                          'then': [n2, repr(c)], 'first_result': g1,
+                          'observed': got2}, monitor='typed-operands',
+                         group=f'edge-chain:{name}:{n2}')
+            if sym not in ('^', '*', '/') and not thorough:
+                continue
+            ca, cb = B.place(a), B.place(b)
+            B.add(f'=({ca}{sym}{cb}){s2}{subject.lit(c)}',
+                  {'kind': 'no_crash_any', 'key': (name, 'edge-formula', a, b)})
+
     # ---- C. every registered function x scalar position x code -------------
     for name in sorted(F):
         if name in catalog.SPIES or name not in catalog.EX:
@@ -439,6 +492,37 @@ def run(ctx):
                           {'kind': 'expect_error', 'code': code,
                            'key': (name, 'two-range', code, 'formula')})
                 ctx.event('aggregate_cases', 2)
+                # the two errors in arguments of different kinds: inside a
+                # range and as a plain argument, in both orders, and in two
+                # ranges; the leftmost in reading order is the result
+                two = 'b' if name.startswith('CONCAT') else 2.0
+                mixed = {
+                    'range-then-scalar': [[[one], [e], [two]], two, e2],
+                    'scalar-then-range': [one, e, [[two], [e2]]],
+                    'range-then-range': [[[one, e]], [[e2, two]]],
+                    'range-then-scalar-first': [[[e, one]], e2],
+                }
+                if name == 'CONCATENATE':
+                    mixed = {}
+
+                def to_lib(a):
+                    if isinstance(a, tuple) and a[0] == 'err':
+                        return mkerr(a[1])
+                    if isinstance(a, list):
+                        return T.Array([[to_lib(v) for v in row]
+                                        for row in a])
+                    return a
+                for lname, args in mixed.items():
+                    got = monitors.call_outcome(f, *[to_lib(a) for a in args])
+                    ctx.event('aggregate_cases')
+                    ctx.event('mixed_two_error_cases')
+                    expect_error(f'{name} {lname} {code} before {code2} '
+                                 f'[library]', (name, lname, code, 'lib'),
+                                 code, got)
+                    text = f'={name}(' + ','.join(
+                        arg_text(B, a) for a in args) + ')'
+                    B.add(text, {'kind': 'expect_error', 'code': code,
+                                 'key': (name, lname, code, 'formula')})
     B.flush()
 
     # ---- E. a cell whose formula yields an error stores and hands it on ----
